@@ -283,4 +283,10 @@ def chainmap_probe():
 
 
 def replay(ctx, path):
+    with open(path) as f:
+        body = json.load(f)
+    if body.get('shape', {}).get('via') == 'collection_iterator_probe':
+        name = body['record'].get('case')
+        print(json.dumps({name: collection_iterator_probe().get(name)}))     # 'intact' when the property holds
+        return
     c01.replay(ctx, path)
